@@ -171,7 +171,7 @@ func init() {
 	timewarp := func(name, class string, back int64) {
 		reg(&mutation{name: name, class: class, header: func(bp *blockPlan) {
 			d := &bp.w.Net.Diff
-			if d.BIP94 && !d.NoRetarget && bp.height%d.interval() == 0 && bp.parent.H.ts-back > bp.parent.mtp() {
+			if d.BIP94 && bp.height%d.interval() == 0 && bp.parent.H.ts-back > bp.parent.mtp() {
 				bp.ts = bp.parent.H.ts - back
 				bp.flag = name
 			}
@@ -475,7 +475,9 @@ func init() {
 			sub := subsidyAt(bp.height, bp.w.Net.SubsidyInterval)
 			for a := bp.parent; a != nil && a.Height > 0; a = a.Parent {
 				cb := a.Txs[0].Msg
-				if len(cb.TxIn[0].Witness) != 0 {
+				if len(cb.TxIn[0].Witness) != 0 || cb.SerializeSize() > 400 {
+					// (not a coinbase padded for a size or sigop limit case:
+					// its copy would push this block over those limits)
 					continue
 				}
 				var val int64
